@@ -5,7 +5,7 @@ from props import dictcheck as DC, dictcommon as D
 def params_fn(rnd, kind, n):
     if kind == "FMINDEX":
         sparse = rnd.choice([0, 0, 1])
-        bparam = rnd.choice([2, 4, 20]) if not sparse else rnd.choice([2, 16, 32])
+        bparam = rnd.choice([2, 4, 20]) if not sparse else rnd.choice([2, 3, 5, 16, 32, 33])
         return [str(sparse), str(bparam), str(rnd.choice([1, 1, 2, 3, 8, 64]))]
     return []
 
